@@ -410,6 +410,34 @@ Definition sim_reqs0 : list (F * payload) :=
 Definition sim_start (ps0 : nat -> PS) : kstate F payload sstate * list (kitem F payload titem) :=
   k_start A (sim_state0 ps0) sim_reqs0.
 
+(** Requests made from OUTSIDE any callback -- driver code calling a node's provider before the
+    first step or between two steps: they reach the handlers at the event loop's current clock. *)
+Definition sim_external (s : kstate F payload sstate) (n : nat) (acts : list action)
+  : kstate F payload sstate * list (kitem F payload titem) :=
+  let '(h1, q, t) := do_actions (k_h s) (el_now (k_el s)) n acts in
+  let '(l1, ref) := sched_all A (k_el s) q in
+  (mkK l1 h1 (k_iter s) (k_inited s) (k_final s) (k_aborted s), map (@KUser F payload titem) t ++ ref).
+
+(** Manual driving: any interleaving of step_simulation() calls and external requests. *)
+Inductive drv_op : Type := DStep | DExt (n : nat) (acts : list action).
+
+Definition sim_drive1 (c : kcfg F) (s : kstate F payload sstate) (o : drv_op)
+  : kstate F payload sstate * list (kitem F payload titem) * option bool :=
+  match o with
+  | DStep => let '(s1, it, r) := k_step A sim_hooks c s in (s1, it, Some r)
+  | DExt n acts => let '(s1, it) := sim_external s n acts in (s1, it, None)
+  end.
+
+Fixpoint sim_drive (c : kcfg F) (ops : list drv_op) (s : kstate F payload sstate)
+  : kstate F payload sstate * list (kitem F payload titem) :=
+  match ops with
+  | [] => (s, [])
+  | o :: r =>
+      let '(s1, it, _) := sim_drive1 c s o in
+      let '(s2, its) := sim_drive c r s1 in
+      (s2, it ++ its)
+  end.
+
 End Sim.
 
 Arguments cb : clear implicits.
@@ -418,3 +446,4 @@ Arguments payload : clear implicits.
 Arguments titem : clear implicits.
 Arguments scfg : clear implicits.
 Arguments sstate : clear implicits.
+Arguments drv_op : clear implicits.
